@@ -424,13 +424,20 @@ fn clock_speeds(ctx: &mut Ctx) {
 			] {
 				d("re-expressed speed (ticks/s)", s2.as_ticks_per_second(), tps, 4.0, ctx);
 			}
-			// interpolation end points
-			let other = ClockSpeed::TicksPerSecond(2.0);
-			let at0 = ClockSpeed::interpolate(s, other, 0.0);
-			let at1 = ClockSpeed::interpolate(s, other, 1.0);
-			d("interpolate(a,b,0) == a", at0.as_ticks_per_second(), tps, 4.0, ctx);
-			if at1.as_ticks_per_second() != 2.0 {
-				ctx.fail("clock speed: interpolate(a,b,1) != b", format!("a={:?} got={:?}", s, at1));
+			// interpolation end points, towards a target in each of the three units (the result is expressed in the target's unit)
+			for other in [ClockSpeed::TicksPerSecond(2.0), ClockSpeed::TicksPerMinute(120.0), ClockSpeed::SecondsPerTick(0.5)] {
+				let at0 = ClockSpeed::interpolate(s, other, 0.0);
+				let at1 = ClockSpeed::interpolate(s, other, 1.0);
+				d("interpolate(a,b,0) == a", at0.as_ticks_per_second(), tps, 8.0, ctx);
+				if (at1.as_ticks_per_second() - 2.0).abs() > 1e-12 {
+					ctx.fail("clock speed: interpolate(a,b,1) != b", format!("a={:?} b={:?} got={:?}", s, other, at1));
+				}
+				// half way lies between the two speeds (in whatever unit the interpolation runs)
+				let mid = ClockSpeed::interpolate(s, other, 0.5).as_ticks_per_second();
+				let (lo, hi) = (tps.min(2.0), tps.max(2.0));
+				if tps.is_finite() && tps > 0.0 && !(mid >= lo * (1.0 - 1e-12) && mid <= hi * (1.0 + 1e-12)) {
+					ctx.fail("clock speed: interpolate(a,b,0.5) is not between a and b", format!("a={:?} b={:?} mid={} ticks/s", s, other, mid));
+				}
 			}
 		}
 	}
@@ -520,6 +527,20 @@ fn clock_time_f64(ctx: &mut Ctx) {
 					continue;
 				}
 			};
+			// the compound operators are the same operations
+			for (name, r, want) in [
+				("+=", catch(|| { let mut u = t; u += x; u }), sum),
+				("-=", catch(|| { let mut u = t; u -= x; u }), diff),
+			] {
+				match r {
+					Ok(u) => {
+						if u != want {
+							ctx.fail(format!("clock time: `{} f64` differs from the binary operator", name), format!("{} got=({}, {:e}) want=({}, {:e})", desc(), u.ticks, u.fraction, want.ticks, want.fraction));
+						}
+					}
+					Err(p) => ctx.fail(format!("clock time: `{} f64` panics: {}", name, p), desc()),
+				}
+			}
 			for (name, r) in [("+", sum), ("-", diff)] {
 				if !(r.fraction >= 0.0 && r.fraction < 1.0) {
 					ctx.fail(
